@@ -175,11 +175,11 @@ def stepHistory (m : Nat) (st : HSt) (j : Json) : R (HSt × Option Json) := do
           ("plain_log", .arr (pst.log.map Json.str).toArray)]
         pure ({ st with store := o.store, kept := kept' }, some out)
     | .error _ =>
-      match j.getObjVal? "reset_store" with
-      | .ok _ => pure ({ st with store := {} }, none)
-      | .error _ => .error "bad history step"
+      match j.getObjVal? "set_store" with
+      | .ok (.str k) => pure ({ st with store := { noop := k = "noop" } }, none)
+      | _ => .error "bad history step"
 
-/-- {"op":"history","max":n,"steps":[{"world":…} | {"run":{"entry":…,"stages":[…]}} | {"reset_store":true}]} -/
+/-- {"op":"history","max":n,"steps":[{"world":…} | {"run":{"entry":…,"stages":[…]}} | {"set_store":"dict"|"noop"}]} -/
 def opHistory (j : Json) : R Json := do
   let m ← fldNat j "max"
   let steps ← fldArr j "steps"
